@@ -1,4 +1,5 @@
 """Per-property manifest text.  CHECKS: id -> (level text, level note, technique, design ref)."""
+TECH_BFS = "explicit-state BFS over operation histories of the real objects (state = history, dedup on concrete state) with a reference-model refinement check at every transition"
 TECH_PRODUCT = "bounded-exhaustive explicit-state enumeration (product explorer) of the real code against a reference model"
 CHECKS = {
     "C17": ("Every helper is run on the complete finite argument space stated in the evidence bounds "
@@ -60,6 +61,29 @@ CHECKS = {
             "Trusted: mc/refmodel.py sums (einsum/tensordot on expanded arrays); integer data; non-sum sparse reducers are "
             "compared with 'reduce the stored entries of each fibre' (DESIGN §6 C02 scoping); mttkrp on 1-way tensors is documented as invalid.",
             TECH_PRODUCT, "DESIGN.md §6 C02"),
+    "C04": ("Breadth-first search over ALL words of write labels up to depth 2 (thorough 3) from 8 initial states (empty, zero, "
+            "tensors with entries stored sorted/reversed/rotated, F- and C-buffers); each transition applies one label to a "
+            "fresh dense tensor, a fresh sparse tensor and the reference array and compares all three entry by entry (shape, "
+            "values, sparse well-formedness incl. 'zero removes the entry'); on every distinct reached state the whole read "
+            "alphabet (subscripts, negative, subscript arrays, linear indices/slices, ~25-125 regions) is checked. States are "
+            "de-duplicated on the concrete implementation state, so sorted and unsorted coordinate lists are never merged.",
+            "Trusted: RefArr in mc/props/C04.py. Scoping: linear assignment to sptensor (N>1) is documented unsupported (sparse "
+            "gets the equivalent subscript write); dense keys with >= 2 index lists / int-slice-list follow NumPy (4 known findings).",
+            TECH_BFS, "DESIGN.md §6 C04"),
+    "C12": ("All ten loss/gradient handle pairs on a data x model grid (complex-step and stencil derivative oracles, kink handled "
+            "one-sidedly), tensor-level evaluate() against the weighted entrywise sum and against the derivative in EVERY "
+            "factor coordinate for every mask with <= 2 (3) zeros, mttkrps vs per-mode mttkrp at every split position, and "
+            "estimate() on the full index set for all n! sample orders.",
+            "Trusted: complex-step differentiation of the real handles; grid of the domain, not all reals. Three known findings "
+            "(negative-binomial gradient, its cascade, gradients ignoring Kruskal weights) are pinned by upstream functional tests.",
+            TECH_PRODUCT, "DESIGN.md §6 C12"),
+    "C14": ("nvecs(n, r, flipsign) for every mode, every 1 <= r <= size and both sign settings on every holder (dense F/C, sparse in "
+            "several stored orders, Kruskal, Tucker dense/sparse core) of a fixed integer data family, against numpy.linalg.eigh of "
+            "the exact Gram matrix: real dtype, orthonormality, eigen-relation with eigenvalues in decreasing order, captured "
+            "energy, projector equality across holders, sign rule; both solver paths are required to be reached.",
+            "Trusted: reference Gram matrix/eigh; admissibility (spectral gap) decided from the reference; ARPACK start vector fixed "
+            "by wrapping scipy eigsh/eigs. The sptensor dense-path defect is pinned by its own doctest (3 known findings).",
+            TECH_PRODUCT, "DESIGN.md §6 C14"),
 }
 PENDING = {f"C{i:02d}": "check not built yet in this phase (planned, see DESIGN.md §6)" for i in range(1, 21) if f"C{i:02d}" not in CHECKS}
 NOT_APPLICABLE = {}
